@@ -264,13 +264,13 @@ Lemma row_in_part_bounds : forall (R : Type) (rbox : R -> bbox) (p : list R) r x
 Proof.
   intros R rbox p r x0 y0 x1 y1 Hin Hb. unfold part_bounds, box_total.
   assert (H0 : In (Some x0) (map bx0 (map rbox p))).
-  { apply in_map_iff. exists (rbox r). rewrite Hb. split; [reflexivity|]. apply in_map, Hin. }
+  { apply in_map_iff. exists (rbox r). split; [rewrite Hb; reflexivity | apply in_map, Hin]. }
   assert (H1 : In (Some y0) (map by0 (map rbox p))).
-  { apply in_map_iff. exists (rbox r). rewrite Hb. split; [reflexivity|]. apply in_map, Hin. }
+  { apply in_map_iff. exists (rbox r). split; [rewrite Hb; reflexivity | apply in_map, Hin]. }
   assert (H2 : In (Some x1) (map bx1 (map rbox p))).
-  { apply in_map_iff. exists (rbox r). rewrite Hb. split; [reflexivity|]. apply in_map, Hin. }
+  { apply in_map_iff. exists (rbox r). split; [rewrite Hb; reflexivity | apply in_map, Hin]. }
   assert (H3 : In (Some y1) (map by1 (map rbox p))).
-  { apply in_map_iff. exists (rbox r). rewrite Hb. split; [reflexivity|]. apply in_map, Hin. }
+  { apply in_map_iff. exists (rbox r). split; [rewrite Hb; reflexivity | apply in_map, Hin]. }
   destruct (nanmin_l_le _ _ H0) as (X0 & -> & ?).
   destruct (nanmin_l_le _ _ H1) as (Y0 & -> & ?).
   destruct (nanmax_l_ge _ _ H2) as (X1 & -> & ?).
@@ -283,25 +283,38 @@ Lemma box_total_wf : forall bs, Forall wf_bbox bs -> wf_bbox (box_total bs).
 Proof.
   intros bs HF. rewrite Forall_forall in HF.
   destruct (nanmin_l (map bx0 bs)) as [X0|] eqn:E0.
-  - right. apply nanmin_l_in in E0. apply in_map_iff in E0.
-    destruct E0 as (b & Hb0 & Hb).
+  - right. pose proof (nanmin_l_in _ _ E0) as Hin. apply in_map_iff in Hin.
+    destruct Hin as (b & Hb0 & Hb).
     destruct (HF b Hb) as [->|(x0 & y0 & x1 & y1 & -> & Hx & Hy)]; [discriminate|].
     cbn in Hb0. injection Hb0 as ->.
-    assert (I1 : In (Some y0) (map by0 bs)) by (apply in_map_iff; eexists; split; [|exact Hb]; reflexivity).
-    assert (I2 : In (Some x1) (map bx1 bs)) by (apply in_map_iff; eexists; split; [|exact Hb]; reflexivity).
-    assert (I3 : In (Some y1) (map by1 bs)) by (apply in_map_iff; eexists; split; [|exact Hb]; reflexivity).
+    assert (I1 : In (Some y0) (map by0 bs))
+      by (apply in_map_iff; eexists; split; [|exact Hb]; reflexivity).
+    assert (I2 : In (Some x1) (map bx1 bs))
+      by (apply in_map_iff; eexists; split; [|exact Hb]; reflexivity).
+    assert (I3 : In (Some y1) (map by1 bs))
+      by (apply in_map_iff; eexists; split; [|exact Hb]; reflexivity).
     destruct (nanmin_l_le _ _ I1) as (Y0 & EY0 & HY0).
     destruct (nanmax_l_ge _ _ I2) as (X1 & EX1 & HX1).
     destruct (nanmax_l_ge _ _ I3) as (Y1 & EY1 & HY1).
-    exists X0, Y0, X1, Y1. unfold box_total.
-    assert (E0' : nanmin_l (map bx0 bs) = Some X0).
-    { destruct (nanmin_l_le (map bx0 bs) X0) as (m & Em & Hm).
-      - apply in_map_iff. eexists; split; [|exact Hb]. reflexivity.
-      - rewrite Em. f_equal.
-        apply nanmin_l_in in Em. apply in_map_iff in Em. destruct Em as (b' & Hb' & Hin').
-        (* X0 is itself the minimum: it was obtained as such *)
-        admit. }
-    admit.
-  - left. unfold box_total. rewrite E0.
-    admit.
-Admitted.
+    exists X0, Y0, X1, Y1. unfold box_total. rewrite E0, EY0, EX1, EY1.
+    split; [reflexivity | lia].
+  - left. rewrite nanmin_l_none in E0.
+    assert (Hall : forall b, In b bs -> b = nanbox).
+    { intros b Hb. destruct (HF b Hb) as [->|(x0 & y0 & x1 & y1 & -> & _)]; [reflexivity|].
+      specialize (E0 (Some x0)). discriminate E0.
+      apply in_map_iff. eexists; split; [|exact Hb]. reflexivity. }
+    unfold box_total, nanbox.
+    assert (N1 : nanmin_l (map bx0 bs) = None).
+    { apply nanmin_l_none. intros x Hx. apply in_map_iff in Hx.
+      destruct Hx as (b & <- & Hb). rewrite (Hall b Hb). reflexivity. }
+    assert (N2 : nanmin_l (map by0 bs) = None).
+    { apply nanmin_l_none. intros x Hx. apply in_map_iff in Hx.
+      destruct Hx as (b & <- & Hb). rewrite (Hall b Hb). reflexivity. }
+    assert (N3 : nanmax_l (map bx1 bs) = None).
+    { apply nanmax_l_none. intros x Hx. apply in_map_iff in Hx.
+      destruct Hx as (b & <- & Hb). rewrite (Hall b Hb). reflexivity. }
+    assert (N4 : nanmax_l (map by1 bs) = None).
+    { apply nanmax_l_none. intros x Hx. apply in_map_iff in Hx.
+      destruct Hx as (b & <- & Hb). rewrite (Hall b Hb). reflexivity. }
+    rewrite N1, N2, N3, N4. reflexivity.
+Qed.
